@@ -281,3 +281,37 @@ if __name__ == '__main__':
     print(len(f))
     for p in f[:5] + f[-5:]:
         print(p['src'])
+
+
+# ---------------------------------------------------------------------------------------------
+# C06: from-import / import statements (engine B, run_c06)
+# ---------------------------------------------------------------------------------------------
+IMPORT_NAMES = ['a', 'b', 'c']
+MODULE_SRC = ''.join('{%% macro %s() %%}<%s>{%% endmacro %%}' % (n, n) for n in IMPORT_NAMES) + '{% set v = "MV" %}'
+
+
+def import_family():
+    """`{% from "m" import <items> %}` for item lists over the exported names a, b, c with and without aliases
+    (including aliases that collide with other exported names and swapped pairs), placed at top level, inside a
+    loop, an if, a with block, a macro and a block; followed by one call per bound name."""
+    item_lists = [
+        [('a', None)], [('a', 'x')], [('a', 'b')], [('a', 'b'), ('b', 'a')], [('a', 'x'), ('b', None)],
+        [('a', None), ('b', 'y'), ('c', None)], [('b', 'a'), ('c', 'b'), ('a', 'c')], [('c', 'x'), ('a', 'y')],
+        [('v', None)], [('v', 'a'), ('a', 'v')],
+    ]
+    places = [
+        ('top', '%s'),
+        ('for', '{%% for i in l1 %%}%s{%% endfor %%}'),
+        ('if', '{%% if c1 %%}%s{%% endif %%}'),
+        ('with', '{%% with q = 1 %%}%s{%% endwith %%}'),
+        ('macro', '{%% macro outer() %%}%s{%% endmacro %%}{{ outer() }}'),
+        ('block', '{%% block blk %%}%s{%% endblock %%}'),
+    ]
+    out = []
+    for items in item_lists:
+        stmt = '{%% from "m" import %s %%}' % ', '.join(n if al is None else '%s as %s' % (n, al) for n, al in items)
+        uses = ''.join('[%s=%s]' % (al or n, '{{ %s }}' % (al or n) if n == 'v' else '{{ %s() }}' % (al or n)) for n, al in items)
+        exp = ''.join('[%s=%s]' % (al or n, 'MV' if n == 'v' else '<%s>' % n) for n, al in items)
+        for pname, tpl in places:
+            out.append(dict(kind='from', place=pname, items=items, src=(tpl % (stmt + uses)) + '|END', expected=exp))
+    return out
